@@ -348,7 +348,11 @@ func (x *Exec) applyContract(fr *frame, st *State, fc *FuncContract, sig *types.
 		vc.assume(st.pc, t)
 	}
 	if x.fc != nil {
-		for _, key := range []string{short, fc.Name} {
+		keys := []string{short, fc.Name, fmt.Sprintf("%s#%d", short, ord), fmt.Sprintf("%s#%d", fc.Name, ord)}
+		if short == fc.Name {
+			keys = []string{short, fmt.Sprintf("%s#%d", short, ord)}
+		}
+		for _, key := range keys {
 			for j, cp := range x.fc.CallPre[key] {
 				// evaluated in the caller's environment, with the callee's argument names bound as well
 				// the callee's parameter names take precedence over same-named locals of the caller
@@ -362,10 +366,11 @@ func (x *Exec) applyContract(fr *frame, st *State, fc *FuncContract, sig *types.
 				if err != nil {
 					return Val{}, fmt.Errorf("%s:%d: callpre %s: %w", cp.File, cp.Line, key, err)
 				}
-				x.vc.oblige("call-pre", fmt.Sprintf("%s/callpre#%d", site, j), st.pc, t, p, fmt.Sprintf("rule at call of %s: %s (%s:%d)", short, cp.Text, shortFile(p.Filename), p.Line))
-			}
-			if key == fc.Name {
-				break
+				oname := fmt.Sprintf("%s/callpre#%d", site, j)
+				if strings.Contains(key, "#") {
+					oname = fmt.Sprintf("%s/callpre-at#%d", site, j)
+				}
+				x.vc.oblige("call-pre", oname, st.pc, t, p, fmt.Sprintf("rule at call of %s: %s (%s:%d)", short, cp.Text, shortFile(p.Filename), p.Line))
 			}
 		}
 	}
@@ -395,6 +400,10 @@ func (x *Exec) applyContract(fr *frame, st *State, fc *FuncContract, sig *types.
 				continue
 			}
 			nv := vc.freshConst("hc", vs)
+			if t.leaf != nil && vc.sortOf(t.leaf) == vs {
+				// whatever the callee stored in the field is a well-formed value of the field's type
+				vc.assume(st.pc, vc.wf(st, nv, t.leaf, 0))
+			}
 			x.vc.setHeap(st, t.key, vc.bind("H", Store(h, t.ref, nv)), -1)
 		}
 	} else if sigReturnsRef(sig) {
@@ -633,7 +642,7 @@ func (x *Exec) designator(e Expr, env *SpecEnv) ([]modTarget, error) {
 			return x.designatorField(inner, index[1:], env)
 		}
 		key, hs := vc.fieldKey(stT, index[0])
-		return []modTarget{{key: key, sort: hs, ref: xv.T}}, nil
+		return []modTarget{{key: key, sort: hs, ref: xv.T, leaf: ft}}, nil
 	case *EUnary:
 		if t.Op == "*" {
 			break
